@@ -17,5 +17,9 @@ RULE = "kernels of length 2-7 over the per-ISA vocabulary (register, flag, memor
 
 
 def units(tier):
-    return [bounded_unit("C14/rotation-invariance", "dg_oracle", [(KDG, "KernelDG.check_for_loopcarried_dep"), (KDG, "KernelDG.create_DG")],
+    from .c16 import partition_unit
+    from pyvc.runner import Unit as U_
+    return [U_("C14/check_for_loopcarried_dep/partition(kernels >= 50 lines)", partition_unit, "P", [(KDG, "KernelDG.check_for_loopcarried_dep")], decisive=False),
+            bounded_unit("C14/parallel-search-equals-sequential", "c16_parallel", [(KDG, "KernelDG.check_for_loopcarried_dep")], timeout=1800),
+            bounded_unit("C14/rotation-invariance", "dg_oracle", [(KDG, "KernelDG.check_for_loopcarried_dep"), (KDG, "KernelDG.create_DG")],
                          extra_args=["C14"], timeout=1800, decisive=True)]
